@@ -2949,6 +2949,18 @@ impl<'de, 'e> de::Deserializer<'de> for YamlDeserializer<'de, 'e> {
             cfg: Cfg,
         }
 
+        impl<'de> TaggedVA<'de> {
+            /// The tagged node is the whole payload: anything the variant did not consume
+            /// (for example surplus elements of `!Variant [..]`) is an error, not dropped.
+            fn expect_payload_consumed(&mut self) -> Result<(), Error> {
+                match self.replay.peek()? {
+                    None => Ok(()),
+                    Some(ev) => Err(Error::unexpected("end of the tagged enum variant payload")
+                        .with_location(ev.location())),
+                }
+            }
+        }
+
         impl<'de> de::VariantAccess<'de> for TaggedVA<'de> {
             type Error = Error;
 
@@ -2960,14 +2972,19 @@ impl<'de, 'e> de::Deserializer<'de> for YamlDeserializer<'de, 'e> {
             where
                 T: de::DeserializeSeed<'de>,
             {
-                seed.deserialize(YamlDeserializer::new(&mut *self.replay, self.cfg))
+                let value = seed.deserialize(YamlDeserializer::new(&mut *self.replay, self.cfg))?;
+                self.expect_payload_consumed()?;
+                Ok(value)
             }
 
             fn tuple_variant<Vv>(mut self, len: usize, visitor: Vv) -> Result<Vv::Value, Error>
             where
                 Vv: Visitor<'de>,
             {
-                YamlDeserializer::new(&mut *self.replay, self.cfg).deserialize_tuple(len, visitor)
+                let value = YamlDeserializer::new(&mut *self.replay, self.cfg)
+                    .deserialize_tuple(len, visitor)?;
+                self.expect_payload_consumed()?;
+                Ok(value)
             }
 
             fn struct_variant<Vv>(
@@ -2978,8 +2995,10 @@ impl<'de, 'e> de::Deserializer<'de> for YamlDeserializer<'de, 'e> {
             where
                 Vv: Visitor<'de>,
             {
-                YamlDeserializer::new(&mut *self.replay, self.cfg)
-                    .deserialize_struct("", fields, visitor)
+                let value = YamlDeserializer::new(&mut *self.replay, self.cfg)
+                    .deserialize_struct("", fields, visitor)?;
+                self.expect_payload_consumed()?;
+                Ok(value)
             }
         }
 
